@@ -129,6 +129,21 @@ impl Behav {
                     1 => (vec![format!("{{ rule: 'remove_debug_profiling', preserve_arguments_side_effects: {} }}", preserve)], generator, json!({"kind": "profiling_noop"})),
                     _ => {
                         let vals: [(&str, &str); 9] = [("true", "true"), ("false", "false"), ("12", "12"), ("-0.5", "-0.5"), ("'str'", "'str'"), ("null", "nil"), ("[1, 'a', true]", "{1, 'a', true}"), ("{ a: 1, 'b c': 'x' }", "{ a = 1, ['b c'] = 'x' }"), ("''", "''")];
+                        if r.chance(1, 4) {
+                            // the value comes from the process environment: (property, variable content or none, expected Lua value)
+                            let envs: [(&str, Option<&str>, &str); 8] = [
+                                ("env: 'DLVERIF_INJ'", Some("from env"), "'from env'"),
+                                ("env: 'DLVERIF_INJ'", Some("12"), "'12'"),
+                                ("env: 'DLVERIF_INJ'", Some(""), "''"),
+                                ("env: 'DLVERIF_INJ'", None, "nil"),
+                                ("env: 'DLVERIF_INJ', default_value: 7", None, "7"),
+                                ("env: 'DLVERIF_INJ', default_value: 'd'", Some("set"), "'set'"),
+                                ("env_json: 'DLVERIF_INJ'", Some("{ a: 1, b: [true, 'x'] }"), "{ a = 1, b = { true, 'x' } }"),
+                                ("env_json: 'DLVERIF_INJ', default_value: false", None, "false"),
+                            ];
+                            let (prop, var, lv) = *r.pick(&envs);
+                            return (vec![format!("{{ rule: 'inject_global_value', identifier: 'INJ', {} }}", prop)], generator, json!({"kind": "inject", "name": "INJ", "lua": lv, "env": ["DLVERIF_INJ", var]}));
+                        }
                         let (jv, lv) = *r.pick(&vals);
                         (vec![format!("{{ rule: 'inject_global_value', identifier: 'INJ', value: {} }}", jv)], generator, json!({"kind": "inject", "name": "INJ", "lua": lv}))
                     }
@@ -181,6 +196,18 @@ impl Behav {
                     })
                     .collect();
                 (rules, generator, Value::Null)
+            }
+        }
+    }
+}
+
+/// inject_global_value may read its value from the process environment: the case says what the variable holds
+fn apply_env(model: &Value) {
+    if let Some(a) = model.get("env").and_then(|e| e.as_array()) {
+        if let Some(name) = a.first().and_then(|n| n.as_str()) {
+            match a.get(1).and_then(|v| v.as_str()) {
+                Some(v) => std::env::set_var(name, v),
+                None => std::env::remove_var(name),
             }
         }
     }
@@ -298,6 +325,7 @@ impl Monitor for Behav {
             let generator = cfg["generator"].as_str().unwrap_or("'retain_lines'");
             let model = model_of(&cfg["model"]);
             let config = dl::config_json(&rules, generator);
+            apply_env(&cfg["model"]);
             let out = match dl::process_one(src, &config) {
                 Ok(o) => o,
                 Err(e) => {
@@ -333,6 +361,12 @@ impl Monitor for Behav {
                     }
                     if names.len() == 2 {
                         cov.hit("ordered_pairs_run");
+                    }
+                    if changed && cfg["model"].get("env").is_some() {
+                        let form = rules.first().map(|r| if r.contains("env_json") { "env_json" } else { "env" }).unwrap_or("env");
+                        let set = if cfg["model"]["env"][1].is_null() { "unset" } else { "set" };
+                        let dflt = if rules.first().map(|r| r.contains("default_value")).unwrap_or(false) { "+default_value" } else { "" };
+                        cov.hit(&format!("inject_from_environment:{}{}:{}", form, dflt, set));
                     }
                     let h = hash64(format!("{}|{:?}|{}", src, rules, generator).as_bytes());
                     cov.eval(if changed { Some(h) } else { None });
@@ -451,6 +485,7 @@ impl Monitor for Behav {
         if trig == "other" && names.iter().any(|n| n == "convert_square_root_call") {
             // does the difference vanish when math.sqrt is modelled as `x ^ 0.5` (the documented rewrite)?
             let generator = cfg["generator"].as_str().unwrap_or("'retain_lines'");
+            apply_env(&cfg["model"]);
             if let Ok(out) = dl::process_one(src, &dl::config_json(&rules, generator)) {
                 let opts = ExecOpts { both_dialects: true, universal: case["universal"].as_bool().unwrap_or(false), fuel: 200_000, model: Model::SqrtAsPow };
                 if let Cmp::Same = compare(src, &out, &opts) {
